@@ -308,3 +308,42 @@ func oracleC04(c SnapCase) (o report.Outcome) {
 }
 
 func TestC04(t *testing.T) { report.Run(t, specC04, genC04, oracleC04) }
+
+// C04Far: the same oracle on the inputs where the tool's floating point helpers have the least room: nested shapes
+// (holes in islands in holes, gaps that close) at the deepest addressable tile matrices of the built-in sets, where a pixel
+// measures millimetres and ordinates reach 2e7. Finding F16 (ring areas that are pure rounding) lives here.
+var specC04Far = report.Spec{Property: "C04", Check: "C04Far",
+	Rule: "nested shapes (recursive C-shaped holes with closing gaps, holes in the islands, shuffled hole order) and annuli on the built-in sets NetherlandsRDNewQuad, WebMercatorQuad, EuropeanETRS89_LAEAQuad, UPSArcticWGS84Quad, " +
+		"first requested tile matrix among the four deepest addressable ones, placed anywhere in the extent (corners, root split, far side); oracle and non-trivial rule of C04. Distinct by case content.",
+	Assumptions: specC04.Assumptions}
+
+func genC04Far(t *rapid.T) SnapCase {
+	grids := []gen.GridSpec{gen.WebMercator, gen.WebMercator, gen.RD, {Kind: "builtin", Name: "EuropeanETRS89_LAEAQuad"}, {Kind: "builtin", Name: "UPSArcticWGS84Quad"}}
+	c := SnapCase{Grid: rapid.SampledFrom(grids).Draw(t, "grid")}
+	g := c.Grid.MustBuild()
+	top := min(g.MaxID(), maxAddressableID(g))
+	c.IDs = []int{top - rapid.IntRange(0, min(3, top)).Draw(t, "depth")}
+	if rapid.IntRange(0, 2).Draw(t, "second") == 0 {
+		if other := rapid.IntRange(0, top).Draw(t, "otherID"); other != c.IDs[0] {
+			c.IDs = append(c.IDs, other)
+		}
+	}
+	c.Flags = gen.DrawFlags(t)
+	c.Flags.Ignore = false
+	c.Q = rapid.SampledFrom([]int64{4, 4, 3, 7}).Draw(t, "q")
+	var rings [][]P
+	if rapid.IntRange(0, 4).Draw(t, "kind") == 0 {
+		c.Shape, rings = "annulus", gen.Annulus(t, c.Q)
+	} else {
+		c.Shape, rings = "nested", gen.Nested(t, c.Q)
+	}
+	if poly, anchor, ok := placeShape(t, g, c.IDs[:1], rings, c.Q); ok {
+		c.Poly, c.Anchor = poly, anchor
+	} else {
+		c.Shape += "/unplaced"
+	}
+	c.Extra = map[string]int64{"locOff": rapid.SampledFrom([]int64{1, 3, 5, 7}).Draw(t, "locOffX"), "locOffY": rapid.SampledFrom([]int64{1, 3, 5, 7}).Draw(t, "locOffY")}
+	return c
+}
+
+func TestC04Far(t *testing.T) { report.Run(t, specC04Far, genC04Far, oracleC04) }
